@@ -5,8 +5,7 @@ import random
 from harness import common as C
 from harness import l2
 
-FILES = ["Engine/Toposort.v", "Engine/ToposortProof.v", "Engine/Tagged.v", "Engine/Tower.v", "Engine/Run08.v",
-         "Engine/TowerProof.v", "Engine/TaggedProof.v", "Engine/TowerAlg.v", "Engine/FwdCorrect.v", "Engine/FwdStep.v", "Engine/FwdEval.v", "Props/C07.v"]
+FILES = ["Engine/Toposort.v", "Engine/ToposortProof.v", "Engine/Tagged.v", "Engine/Tower.v", "Engine/Run08.v", "Engine/TowerProof.v", "Engine/TaggedProof.v", "Engine/TowerAlg.v", "Engine/FwdCorrect.v", "Engine/FwdStep.v", "Engine/FwdEval.v", "Engine/TowerRing.v", "Engine/MixInterp.v", "Engine/MixStep.v", "Engine/MixBackward.v", "Engine/MixEval.v", "Props/C07.v"]
 RULE = ("for random operator-free bodies, every one of the 2^k sequences of reverse/forward operators of order "
         "k=2..4 with respect to one variable, plus random nested programs of differentiation depth >= 2; distinct "
         "by program text; non-trivial when order >= 2 and the k-th derivative is not identically zero.  Built-in "
@@ -63,9 +62,9 @@ def run(res, tier, seed, broken):
 
 
 replay = __import__("harness.props.c08", fromlist=["replay"]).replay
-TECHNIQUE = "Coq: Hessian symmetry theorem on the tower spec + model of the engine in which rule bodies are traced programs; exact three-way correspondence over all 2^k mode sequences, k=2..4; second-order four-sequence oracle over the whole primitive configuration table incl. zero-cotangent and special-value points"
+TECHNIQUE = "Coq theorem C07_all_mode_sequences_exact (= nested_correct): every order and every mode sequence of the engine model equals the tower semantics; Hessian symmetry theorem on the tower spec; exact three-way correspondence over all 2^k mode sequences, k=2..4; second-order four-sequence oracle over the whole primitive configuration table incl. zero-cotangent and special-value points"
 DESIGN_REF = "DESIGN.md 4.7"
-LEVEL_TEXT = ("Proved: mixed partials commute for every operator-free body in the specification semantics, and nested "
-              "operators compute that Hessian entry (partial: the equality model = spec for all orders is tied by "
-              "exhaustive-mode-sequence correspondence, not yet a theorem).")
+LEVEL_TEXT = ("Proved in full on the engine model: all orders, all 2^k mode sequences, all compositions of the object-language "
+              "primitives (whose rules are themselves traced programs). Built-in array primitives: second-order oracle over the "
+              "whole configuration table (not a theorem).")
 LEVEL_NOTE = "Trusted: Coq kernel; tagged evaluator tied to core.py/tracer.py by correspondence only; scalar object language."
